@@ -137,6 +137,12 @@ let dispatch cmd r =
   | "com" -> let f = next_arr r in let lab = next_list r in let l = next_z r in
       let (t, s) = com_sums f lab l in out_lists [[t]; s]
   | "label" -> let f = next_arr r in let bc = next_arr r in let (o, n) = label f bc in out_lists [o; [n]]
+  | "locmm" -> let ismin = next_int r = 1 in let f = next_arr r in let bc = next_arr r in
+      out_lists [locmm ismin f bc; List.map (fun p -> zb (locmm_spec ismin f bc p)) (all_positions f.shape)]
+  | "regmm" -> let ismin = next_int r = 1 in let f = next_arr r in let bc = next_arr r in
+      out_lists [regmm ismin f bc; regmm_spec ismin f bc]
+  | "close_holes" -> let f = next_arr r in let bc = next_arr r in out_lists [close_holes f bc; close_holes_spec f bc]
+  | "hitmiss" -> let f = next_arr r in let t = next_arr r in out_lists [hitmiss f t; hitmiss_spec f t]
   | _ -> failwith ("unknown command " ^ cmd)
 
 let () =
